@@ -111,6 +111,9 @@ def buffersizes(n):
     return st.sampled_from(c)
 
 
+# numbers of different type that are very close but not equal (a comparison that goes through float() loses them)
+NEAR = [(Decimal("0.1"), 0.1), (Decimal(10 ** 16 + 1), 1e16), (Decimal(2 ** 63 - 1), float(2 ** 63)), (10 ** 16 + 1, 1e16),
+        (Decimal("-0.3"), -0.3), (Decimal("1E+400"), float("inf"))]
 TWINS = {0: [0.0, False, Decimal("0")], 1: [1.0, True, Decimal("1")], 2: [2.0, Decimal("2")], -1: [-1.0, Decimal("-1")],
          3: [3.0, Decimal("3")], 10: [10.0, Decimal("10")]}
 
@@ -132,6 +135,8 @@ def twinned_pool(draw, elements=keyish, min_size=2, max_size=5, seq_twins=False)
         p.append(draw(st.sampled_from(TWINS[base])))
         if draw(st.booleans()):
             p.append(draw(st.sampled_from(TWINS[base])))
+    if draw(st.integers(0, 5)) == 0:
+        p.extend(draw(st.sampled_from(NEAR)))
     if seq_twins and draw(st.integers(0, 3)) == 0:
         # the same sequence once as a list and once as a tuple (they tie under the ordering), and / or two sequences that
         # differ only behind a common prefix, in a position where native comparison gives up
